@@ -1,7 +1,7 @@
 (* C16 - the splice table regenerated from /repo (VerifGen.K10) satisfies site_ok, and what
    that means together with the string-literal theorem. *)
 From Coq Require Import List String Ascii NArith Bool.
-From Verif Require Import PyStrLit PyStrLitProofs PyLit PyLitProofs Splice DefaultLit DefaultLitProofs.
+From Verif Require Import PyStrLit PyStrLitProofs PyLit PyLitProofs PyLine PyLineProofs Splice DefaultLit DefaultLitProofs.
 From VerifGen Require Import K10.
 Import ListNotations.
 Open Scope string_scope.
@@ -113,3 +113,56 @@ Theorem default_literal v : dwf default_literal_branches v = true ->
     forall p rest, oracle_ok p -> ends_token rest = true ->
       eval_lit (render_lit p l ++ rest) = Some (l, rest).
 Proof. apply shape_sound. exact default_branches_safe. Qed.
+
+(* round 4: the site seen from the whole LINE.  Reading the generated line template of a site from
+   its start (whatever was emitted before: [acc], [prev]), the tokenizer passes the before-text
+   character by character, then reads exactly ONE string token whose value is the data string, and
+   continues in default state with the after-text *)
+Theorem site_line st :
+  In st splice_sites -> s_kind st = KRepr \/ s_kind st = KAscii ->
+  forall p d rest prev acc, oracle_ok p -> wf_str d ->
+  tok_line (LDef prev) acc (codes (s_before st) ++ site_text (s_kind st) p d ++ codes (s_after st) ++ rest)
+  = tok_line (LDef false) (TkStr d :: rev (map TkChar (codes (s_before st))) ++ acc) (codes (s_after st) ++ rest).
+Proof.
+  intros Hin Hk p d rest prev acc Hp Hw.
+  pose proof (proj1 (forallb_forall _ _) sites_ok st Hin) as Hok.
+  unfold site_ok in Hok. apply andb_true_iff in Hok. destruct Hok as [Hok _].
+  apply andb_true_iff in Hok. destruct Hok as [Hok _].
+  apply andb_true_iff in Hok. destruct Hok as [Hok Ha].
+  apply andb_true_iff in Hok. destruct Hok as [_ Hb].
+  pose proof (after_ok_ctx _ rest Ha) as Hc.
+  destruct Hk as [E|E]; rewrite E; cbn [site_text].
+  - apply line_literal; assumption.
+  - apply line_literal; [intros c _; reflexivity | assumption ..].
+Qed.
+
+(* round 4: every library-text placeholder that sits inside a static string literal of a template
+   is of a plain origin and is surrounded by plain text; for plain text the static literal then
+   denotes exactly before ++ text ++ after *)
+Lemma ident_sites_ok : forallb isite_ok ident_sites = true.
+Proof. vm_compute. reflexivity. Qed.
+
+Lemma forallb_inner_plain l : forallb inner_char_ok l = true -> Forall (fun c => plain_char c = true) l.
+Proof.
+  intros H. apply Forall_forall. intros c Hc. eapply forallb_forall in H; eauto.
+  unfold inner_char_ok in H. apply andb_true_iff in H. apply H.
+Qed.
+
+Theorem ident_site st :
+  In st ident_sites ->
+  forall q t rest, codes (i_quote st) = [q] ->
+  Forall (fun c => plain_char c = true) t -> ctx_ok rest = true ->
+  is_quote q = true /\
+  lex_string (q :: (codes (i_before st) ++ t ++ codes (i_after st)) ++ q :: rest)
+  = Some (codes (i_before st) ++ t ++ codes (i_after st), rest).
+Proof.
+  intros Hin q t rest Eq Ht Hc.
+  pose proof (proj1 (forallb_forall _ _) ident_sites_ok st Hin) as Hok.
+  unfold isite_ok in Hok. apply andb_true_iff in Hok. destruct Hok as [Hok Ha].
+  apply andb_true_iff in Hok. destruct Hok as [Hok Hb].
+  apply andb_true_iff in Hok. destruct Hok as [_ Hq]. rewrite Eq in Hq.
+  split; [exact Hq|].
+  apply quoted_plain_lex; [exact Hq | | exact Hc].
+  apply Forall_app. split; [apply forallb_inner_plain, Hb|].
+  apply Forall_app. split; [exact Ht | apply forallb_inner_plain, Ha].
+Qed.
